@@ -46,6 +46,44 @@ class Mod(rp.Mod):
         return rp.Mod.extra_intrinsic(self, I, c, args, st, n)
 
 
+class WireMod:
+    """lex(text) must hand exactly `text` to the lexer: Lexer{input: text.chars().peekable()}, collected through next_token"""
+    def intrinsic(self, I, callee, args, st, n):
+        a = [I.deref_val(st, x) for x in args]
+        if callee == "core::str::<impl str>::chars":
+            return [(OK, ("abs", "chars", a[0]), st)]
+        if callee == "core::iter::traits::iterator::Iterator::peekable":
+            return [(OK, ("abs", "peekable", a[0]), st)]
+        if callee == "core::iter::traits::iterator::Iterator::by_ref":
+            return [(OK, args[0], st)]
+        if callee == "core::iter::traits::iterator::Iterator::collect":
+            return [(OK, ("abs", "collected", I.deep_deref(st, a[0], 0)), st)]
+        if callee == rp.NEXT_TOKEN:
+            return [(OK, ("abs", "next_token-of", I.deep_deref(st, a[0], 0)), st)]
+        return None
+
+
+def check_lexer_wiring(F, C):
+    lexer_ty = "debian_control::relations::Lexer"
+    want_lexer = ("struct", lexer_ty, (("input", ("abs", "peekable", ("abs", "chars", ("abs", "text")))),))
+    f = F.fn(rp.LEX_FN)
+    if C.ob("C09/anchor", rp.LEX_FN, f is not None, "not found"):
+        I = hirai.Interp(F, WireMod())
+        res = I.inline(f, [("abs", "text")], hirai.State(depth=0))
+        got = [(ctl, v) for ctl, v, s in res]
+        C.ob("C09/text-unmodified", "lex -> Lexer", got == [(OK, ("abs", "collected", want_lexer))],
+             "lex(text) must collect the tokens of a Lexer reading exactly text.chars() (got %s; unmodelled calls %s)" % ([str(g)[:160] for g in got], sorted(I.unknown_calls)), f["sp"])
+    k = "<debian_control::relations::Lexer<'_> as core::iter::traits::iterator::Iterator>::next"
+    f = F.fn(k) or next((v for kk, v in F.fns.items() if kk.startswith("<debian_control::relations::Lexer") and kk.endswith("Iterator>::next")), None)
+    if C.ob("C09/anchor", k, f is not None, "not found"):
+        I = hirai.Interp(F, WireMod())
+        st = hirai.State(depth=0).setroot(("T", "lx"), ("abs", "the-lexer"))
+        res = I.inline(f, [("ref", (("T", "lx"),))], st)
+        got = [(ctl, v) for ctl, v, s in res]
+        C.ob("C09/text-unmodified", "Lexer::next = next_token", got == [(OK, ("abs", "next_token-of", ("abs", "the-lexer")))],
+             "Iterator::next of the lexer must return next_token() unchanged (got %s)" % [str(g)[:120] for g in got], f["sp"])
+
+
 def run(tier):
     F = facts.Facts()
     C = Check("C09", "proof", tier, "abstract interpretation: relation lexer per character class + token-cursor fixpoint of the relation parser over all token-kind sequences",
@@ -158,6 +196,7 @@ def run(tier):
         C.ob("C09/outcomes-covered", short, n_ok >= 1 and (mode.startswith("relaxed") or n_err >= 1), "ok=%d err=%d" % (n_ok, n_err))
     if I.unknown_calls:
         C.note("unreviewed-external-callees", sorted(I.unknown_calls))
+    check_lexer_wiring(F, C)
     # Display
     for t in ("Relations", "Entry", "Relation"):
         k = "<%s%s as core::fmt::Display>::fmt" % (PFX, t)
